@@ -88,6 +88,12 @@ func (a *API) onRecordingsGet(ctx *gin.Context) {
 		return
 	}
 
+	err := conf.IsValidPathName(pathName)
+	if err != nil {
+		a.writeError(ctx, http.StatusBadRequest, fmt.Errorf("invalid path name: %w (%s)", err, pathName))
+		return
+	}
+
 	c := a.Parent.APIConfigSnapshot()
 
 	pathConf, _, err := conf.FindPathConf(c.Paths, pathName)
@@ -101,6 +107,12 @@ func (a *API) onRecordingsGet(ctx *gin.Context) {
 
 func (a *API) onRecordingDeleteSegment(ctx *gin.Context) {
 	pathName := ctx.Query("path")
+
+	err := conf.IsValidPathName(pathName)
+	if err != nil {
+		a.writeError(ctx, http.StatusBadRequest, fmt.Errorf("invalid path name: %w (%s)", err, pathName))
+		return
+	}
 
 	start, err := time.Parse(time.RFC3339, ctx.Query("start"))
 	if err != nil {
